@@ -15,7 +15,7 @@ def run(R, env):
     R.rule("C03.R3", "SubmitBatch: burn coin = batch_total_liquid_stake of the loaded pending batch = the value subtracted from total_liquid_stake_token; sender and holder = contract")
     R.rule("C03.R4", "State.total_liquid_stake_token changes only from {instantiate, LiquidStake, SubmitBatch, ResumeContract}; LiquidStake emits no value-moving message other than {mint, stake transfer, delivery}")
     R.rule("C03.R5", "LiquidUnstake: the amount added to the pending batch total is the LST payment must_pay(info, liquid_stake_token_denom)")
-    R.rule("C03.R6", "refunded outbound LST transfers stay tracked until re-sent: recovery removes exactly what it sums, rejects mixed denoms, and callbacks only mark the contract's own packets (rule bodies of C07.R4, R7, R8)")
+    R.rule("C03.R6", "refunded outbound LST transfers stay tracked until re-sent: recovery re-sends only the refundable packets of the requested receiver (a refunded LST delivery goes back to the recipient it was minted for and to nobody else), removes exactly what it sums, rejects mixed denoms, and callbacks only mark the contract's own packets (rule bodies of C07.R4 - R8)")
     R.assume("the 39-character sender classification heuristic and the circulating-supply equality over histories are not decided (runtime string lengths / no ledger)")
     sites = shared.site_contexts(prog, CRATE, env)
     if "LiquidStake" not in sites or "SubmitBatch" not in sites or "LiquidUnstake" not in sites:
@@ -166,7 +166,7 @@ def run(R, env):
     R.ob("C03.R4", "LiquidStake:message-sites", not unknown, "LiquidStake emits messages outside {mint, oracle, stake transfer, delivery}: %s" % unknown, fn=hk)
     from engine.runner import Remap
     from . import C07
-    C07.run(Remap(R, {"C07.R4": "C03.R6", "C07.R7": "C03.R6", "C07.R8": "C03.R6"}), env)
+    C07.run(Remap(R, {"C07.R4": "C03.R6", "C07.R5": "C03.R6", "C07.R6": "C03.R6", "C07.R7": "C03.R6", "C07.R8": "C03.R6"}), env)
     # ---------------- R5
     hu = sites["LiquidUnstake"]
     uk = hu.body.key
